@@ -10,9 +10,12 @@ A CASE is JSON:
   op = ["now", a] | ["rel", d_us, a] | ["abs", t_us, a] | ["cancel", a] | ["dispose"]
 
 Log entries are (tid, clock_us, kind, label) with kind in
-  call ret raise cancelcall cancelret disposecall disposeret check0 check1 start end spawn exit s0
-(`call`, `cancelcall`, `disposecall`, `s0` are harness-side markers used by the oracle only;
- `check0/1` is the result of item.is_cancelled() observed by wrapping that method)."""
+  call ret raise cancelcall cancelret disposecall disposeret check0 check1 start end spawn exit s0 lock
+(`call`, `cancelcall`, `disposecall`, `s0`, `lock` are harness-side markers used by the oracle only;
+ `check0/1` is the result of item.is_cancelled() observed by wrapping that method; `lock` = a thread entered
+ `with self._condition:` of an EventLoopScheduler -- made by a loop thread outside any action it is the
+ start of one of run()'s two locked blocks, so the items tested/started between two such markers belong
+ to one batch)."""
 from __future__ import annotations
 
 import ast
@@ -183,6 +186,21 @@ def _install_check_hook(ctl_box):
     return orig
 
 
+def _install_lock_marker(sch, c):
+    """harness-side observation of `with self._condition:` (the Condition object is the controlled one the
+    module was rebound to; its class is swapped for a subclass that logs after acquiring)"""
+    cond = getattr(sch, "_condition", None)
+    if not isinstance(sch, ELM.EventLoopScheduler) or not isinstance(cond, kt.CCondition):
+        return
+
+    class SpyCondition(type(cond)):
+        def __enter__(self):
+            r = super().__enter__()
+            c.emit("lock", 0)
+            return r
+    cond.__class__ = SpyCondition
+
+
 class TC(kt.TController):
     def emit(self, *ev):
         self.log.append((self.tid(), self.clock.us) + tuple(ev))
@@ -202,6 +220,7 @@ def run_case(case, chooser, fine=False, make_scheduler=None, extra_targets=None,
     orig = _install_check_hook(box)
     try:
         sch = (make_scheduler or (lambda case: ELM.EventLoopScheduler(exit_if_empty=bool(case.get("eie")))))(case)
+        _install_lock_marker(sch, c)
         bodies = {int(k): v for k, v in case.get("bodies", {}).items()}
         disp = {}
         actions = {}
@@ -401,6 +420,58 @@ IMPORTS = "Base.Prelude Core.EventLoop"
 # --------------------------------------------------------------------------
 
 WINDOW_SIG = "C31 cancel-in-dispatch-window|cancel() returned between is_cancelled() and invoke()"
+# The class "dispose() returned after the victim's last is_cancelled() test and before its invoke()" is refined
+# by WHAT HAPPENED INSIDE THAT WINDOW, so that different histories of the class get different signatures:
+#   |<what the loop did in the window>|<who called the dispose()>
+# The unchanged code has exactly one of them (Core/EventLoopBatch.v: el_test_right_before_invoke -- the loop does
+# nothing between an item's test and its start, so only a scheduling thread can cancel there):
+WINDOW_KNOWN = WINDOW_SIG + "|nothing else ran in the window|dispose() called by a scheduling thread"
+
+
+def window_signature(log, a, i_check, i_start, i_cc):
+    """signature of a dispatch-window violation of action `a`: the victim's last is_cancelled() -> False is at
+    log position i_check, its start at i_start, the cancelling dispose() was called at i_cc (i_check < i_cc < i_start)"""
+    loop_tid = log[i_start][0]
+    inside = [e for e in log[i_check + 1:i_start]
+              if e[2] in ("check0", "check1", "start", "end") and not (e[2] in ("check0", "check1") and e[3] == a)]
+    started = sorted({e[3] for e in inside if e[2] == "start"})
+    if started:
+        what = "other action(s) of this scheduler started in the window"
+    elif inside:
+        what = "other item(s) of this scheduler were tested or ended in the window"
+    else:
+        what = "nothing else ran in the window"
+    # who cancelled: a scheduling thread, or an action running on the loop thread -- of the victim's batch or not
+    ctid = log[i_cc][0]
+    open_ = None
+    for e in log[:i_cc]:
+        if e[0] == ctid and e[2] == "start":
+            open_ = e[3]
+        elif e[0] == ctid and e[2] == "end":
+            open_ = None
+
+    def batch_of(i):
+        """position of the last locked block the loop thread entered on its own (outside any action) before i"""
+        b, running = None, False
+        for k, e in enumerate(log[:i + 1]):
+            if e[0] != loop_tid:
+                continue
+            if e[2] == "start":
+                running = True
+            elif e[2] == "end":
+                running = False
+            elif e[2] == "lock" and not running:
+                b = k
+        return b
+    if open_ is None:
+        who = "dispose() called by a scheduling thread"
+    else:
+        i_first = next((k for k, e in enumerate(log) if e[2] in ("check0", "check1") and e[3] == open_), None)
+        same = (ctid == loop_tid and i_first is not None and any(e[2] == "lock" for e in log)
+                and batch_of(i_first) == batch_of(i_check))
+        who = ("dispose() called by an earlier action of the same batch" if same
+               else "dispose() called by an action of another batch")
+    return f"{WINDOW_SIG}|{what}|{who}", started, open_
 
 
 def oracle(case, r, single_loop_thread=True):
@@ -501,9 +572,12 @@ def oracle(case, r, single_loop_thread=True):
                 and first("ret", a) < first("cancelcall", a):
             chk = [i for i, x in enumerate(log) if x[2] == "check0" and x[3] == a and i < i_start]
             if chk and chk[-1] < first("cancelcall", a):
-                bad.append((WINDOW_SIG, f"action {a}: is_cancelled() -> False at log position {chk[-1]}, "
-                                        f"cancel() called and returned at {first('cancelcall', a)}..{i_canc}, "
-                                        f"action started at {i_start}"))
+                sig, started, by = window_signature(log, a, chk[-1], i_start, first("cancelcall", a))
+                bad.append((sig, f"action {a}: is_cancelled() -> False at log position {chk[-1]}, "
+                                 f"cancel() called and returned at {first('cancelcall', a)}..{i_canc} on thread "
+                                 f"{log[i_canc][0]}" + (f" (inside action {by})" if by is not None else "") +
+                                 f", action started at {i_start} on thread {log[i_start][0]}; actions started "
+                                 f"between the test and the start: {started}"))
             else:
                 bad.append(("C31 cancelled-action-ran|", f"action {a} cancelled at log position {i_canc}, "
                                                          f"started at {i_start}"))
